@@ -360,6 +360,33 @@ def gen_random_files(seed, n, maxlines, opts=("none",), bad_rate=0.0):
     return files
 
 
+def crlf_files(seed, n, maxlines):
+    """random conventional files whose lines end in CR LF: the carriage return is one more trailing blank of every line
+    (Grammar!TrailOk / PrintableCr) - of the value, the section header, the comment text the line ends in"""
+    from gen import gram
+    rnd = random.Random(seed + 77)
+    files = []
+    while len(files) < n:
+        f = gram.random_file(rnd, rnd.randint(1, maxlines), rnd.choice(["none", "none", "python", "join"]), 0.0)
+        # (continuation lines under blank delimiters have no trailing blanks at all in the conventional grammar)
+        if gram.dclass("".join(chr(c) for c in f["par"]["delim"])) == "BLANK" and any(a["t"] == "cont" for a in f["abs"]):
+            continue
+        mixed = rnd.random() < 0.25       # one file in four: only some of the lines
+        for a in f["abs"]:
+            if mixed and rnd.random() < 0.5:
+                continue
+            t = a["t"]
+            if t == "blank":
+                a["ind"] = a["ind"] + [13]
+            elif t == "comment" or (t in ("entry", "cont") and a["tcc"]):
+                a["tct"] = a["tct"] + [13]
+            else:
+                a["tw"] = a["tw"] + [13]
+        f["lines"] = [gram.cds(gram.render(l)) for l in f["abs"]]
+        files.append(f)
+    return files
+
+
 def long_line_files(n):
     """conventional files with ONE long field (value of an entry, continuation line, comment line) of n bytes: "L" + filler + "R" """
     from gen import gram
@@ -442,7 +469,8 @@ def check_c02(exe, tier, seed, verdict):
     total += total_s
     nfiles = 300 if tier == "quick" else 6000
     twins, nlong = check_long_lines(exe, verdict, "C02")
-    files = gen_random_files(seed, nfiles, 14 if tier == "quick" else 40) + twins
+    ncrlf = 150 if tier == "quick" else 3000
+    files = gen_random_files(seed, nfiles, 14 if tier == "quick" else 40) + twins + crlf_files(seed, ncrlf, 12 if tier == "quick" else 30)
     acc = validate_prefix_traces(exe, files, verdict, "C02") + nlong
     # section and key names that coincide with texts the library uses internally are names like any other
     acc += check_marker_names(exe, verdict)
@@ -454,7 +482,7 @@ def check_c02(exe, tier, seed, verdict):
     acc += p_econf.run_mixed(exe, random.Random(seed + 21), nmix, verdict, "C02", nops=(10, 40))
     cov = {"states": r.distinct, "transitions": r.generated, "traces_validated_against_impl": n + acc,
            "evaluations": n + sum(len(f["lines"]) for f in files), "distinct_nontrivial": nn,
-           "rule": "TLC enumerates all conventional files of <= %d lines over the line pool of MC_Parser.tla x 7 delimiter sets x 3 comment sets (%d files; every %d-th replayed in this tier); non-trivial = >= 2 entries and a quoted value / trailing comment / continuation / blanks around the delimiter / repeated key. Plus %d random conventional files (full printable alphabet) read prefix by prefix and validated line by line by Trace_Parser (6 of them twins of files with one field - entry value, continuation line, comment line - of 8190 / 8192 / 9000 / 70000 bytes, which must be observed like the twin with the filler stretched). Plus %d API histories that read random files and ask through every getter form (plain / bracketed section names, names that are prefixes of each other, typed getters, listings, extended getter), validated by Trace_Econf." % (maxl, total, sample, len(files), nmix),
+           "rule": "TLC enumerates all conventional files of <= %d lines over the line pool of MC_Parser.tla x 7 delimiter sets x 3 comment sets (%d files; every %d-th replayed in this tier); non-trivial = >= 2 entries and a quoted value / trailing comment / continuation / blanks around the delimiter / repeated key. Plus %d random conventional files (full printable alphabet) read prefix by prefix and validated line by line by Trace_Parser (6 of them twins of files with one field - entry value, continuation line, comment line - of 8190 / 8192 / 9000 / 70000 bytes, which must be observed like the twin with the filler stretched; %d of them with CR LF line ends - the carriage return is one more trailing blank of the line). Plus %d API histories that read random files and ask through every getter form (plain / bracketed section names, names that are prefixes of each other, typed getters, listings, extended getter), validated by Trace_Econf." % (maxl, total, sample, len(files), ncrlf, nmix),
            "samples": samples, "exhaustive": sample == 1,
            "model_universe_files": total, "replayed_files": n, "random_prefix_files_accepted": acc,
            "trusted_base": ["TLC 1.8.0", "gcc ASan/UBSan", "drv.c (public API only)"]}
